@@ -19,7 +19,7 @@ import (
 
 const (
 	poolSize    = 5
-	numFixtures = 5
+	numFixtures = 6
 )
 
 // fixtureSpec: plugin indices by pool position (ascending, so chain order == pool order),
@@ -33,21 +33,27 @@ var fixtureSpecs = [numFixtures]struct {
 	noStop [poolSize]bool
 	// launched: the pool plugin is pre-installed: the Adaptation launches it (see launched.go)
 	launched [poolSize]bool
+	// noUpdate: the pool plugin does not subscribe to UpdateContainer
+	noUpdate [poolSize]bool
 }{
 	// fixture 0: all indices share their first digit (code that compares plugins by a prefix
 	// of "<index>-<name>" shows here for every pair)
-	{[poolSize]string{"10", "11", "12", "13", "14"}, [poolSize]int{0, 1, 2, 3, 4}, baseNames, [poolSize]bool{}, [poolSize]bool{}},
-	{[poolSize]string{"10", "20", "30", "40", "50"}, [poolSize]int{4, 3, 2, 1, 0}, baseNames, [poolSize]bool{}, [poolSize]bool{}},
-	{[poolSize]string{"05", "06", "50", "98", "99"}, [poolSize]int{2, 0, 4, 1, 3}, baseNames, [poolSize]bool{false, false, true, false, false}, [poolSize]bool{}},
+	{[poolSize]string{"10", "11", "12", "13", "14"}, [poolSize]int{0, 1, 2, 3, 4}, baseNames, [poolSize]bool{}, [poolSize]bool{}, [poolSize]bool{}},
+	{[poolSize]string{"10", "20", "30", "40", "50"}, [poolSize]int{4, 3, 2, 1, 0}, baseNames, [poolSize]bool{}, [poolSize]bool{}, [poolSize]bool{}},
+	{[poolSize]string{"05", "06", "50", "98", "99"}, [poolSize]int{2, 0, 4, 1, 3}, baseNames, [poolSize]bool{false, false, true, false, false}, [poolSize]bool{}, [poolSize]bool{}},
 	// twins: pool plugins 1 and 2 (and 3 and 4) register under the same index AND name (two
 	// instances of one plugin binary). They are still two different plugins. Equal indices
 	// leave their relative order to the implementation; the fixture observes it once (see
 	// getFixture) and is only used if it is the registration order.
-	{[poolSize]string{"10", "20", "20", "30", "30"}, [poolSize]int{0, 1, 2, 3, 4}, [poolSize]string{"e", "twin", "twin", "pair", "pair"}, [poolSize]bool{}, [poolSize]bool{}},
+	{[poolSize]string{"10", "20", "20", "30", "30"}, [poolSize]int{0, 1, 2, 3, 4}, [poolSize]string{"e", "twin", "twin", "pair", "pair"}, [poolSize]bool{}, [poolSize]bool{}, [poolSize]bool{}},
 	// pre-installed and external plugins mixed: pool plugins 0, 2 and 3 are launched by the
 	// Adaptation from its plugin directory, 1 and 4 connect to the socket
 	{[poolSize]string{"10", "20", "30", "40", "50"}, [poolSize]int{0, 4, 2, 1, 3}, [poolSize]string{"e" + launchedSuffix, "d", "c" + launchedSuffix, "b" + launchedSuffix, "a"},
-		[poolSize]bool{}, [poolSize]bool{true, false, true, true, false}},
+		[poolSize]bool{}, [poolSize]bool{true, false, true, true, false}, [poolSize]bool{}},
+	// nobody listens to updates: no pool plugin subscribes to UpdateContainer (update
+	// requests are answered without asking anyone), two of them not to StopContainer either
+	{[poolSize]string{"10", "20", "30", "40", "50"}, [poolSize]int{0, 1, 2, 3, 4}, baseNames,
+		[poolSize]bool{false, true, false, true, false}, [poolSize]bool{}, [poolSize]bool{true, true, true, true, true}},
 }
 
 var baseNames = [poolSize]string{"e", "d", "c", "b", "a"}
@@ -123,6 +129,13 @@ func subscribers(fixture int, kind string) int {
 			}
 		}
 	}
+	if kind == "update" {
+		for _, b := range fixtureSpecs[fixture].noUpdate {
+			if b {
+				n--
+			}
+		}
+	}
 	return n
 }
 
@@ -167,9 +180,14 @@ func getFixture(n int) (*fixture, error) {
 			continue // started, configured and synchronized by the Adaptation's Start()
 		}
 		p := &fx.Plugin{Name: spec.names[pi], Idx: spec.idx[pi]}
-		if spec.noStop[pi] {
+		if spec.noStop[pi] || spec.noUpdate[pi] {
 			m := api.ValidEvents
-			m.Clear(api.Event_STOP_CONTAINER)
+			if spec.noStop[pi] {
+				m.Clear(api.Event_STOP_CONTAINER)
+			}
+			if spec.noUpdate[pi] {
+				m.Clear(api.Event_UPDATE_CONTAINER)
+			}
 			p.Mask = m
 		}
 		p.OnEvent = func(_ context.Context, _ api.Event, pod *api.PodSandbox, _ *api.Container) error {
